@@ -1143,31 +1143,8 @@ def _dataset_cases(ctx, reqs, pend):
                                     orientation=pl['ori'], omit=omit)
         tiles = [(a, b) for a in range(nth) for b in range(ntw) if (a, b) not in set(omit)]
         if kind == 'full_multi':
-            # two optical paths x two focal planes: frames ordered path-major, then focal plane, then tiles; focal plane k
-            # lies (k-1) * SpacingBetweenSlices above the total pixel matrix along z of the slide
-            zsp = _spacing(r)
-            ds.SharedFunctionalGroupsSequence[0].PixelMeasuresSequence[0].SpacingBetweenSlices = zsp
-            ds.NumberOfOpticalPaths = 2
-            ds.OpticalPathSequence = DSeq([copy.deepcopy(ds.OpticalPathSequence[0]), copy.deepcopy(ds.OpticalPathSequence[0])])
-            ds.OpticalPathSequence[1].OpticalPathIdentifier = '2'
-            ds.TotalPixelMatrixFocalPlanes = 2
-            ds.PixelData = ds.PixelData * 4
-            ds.NumberOfFrames = 4 * len(tiles)
-            ntile = len(tiles)
-            for f in range(4 * ntile):
-                a, b = tiles[f % ntile]
-                plane = (f // ntile) % 2
-                st, tf = _call(sp.PixelToReferenceTransformer.for_image, ds, frame_number=f + 1)
-                ctx.case(fn='for_image', kind=kind, outcome=st if st == 'ok' else tf,
-                         nontrivial_key=('ds', kind, 'frame', pl['cls'], plane, f // (2 * ntile)) if st == 'ok' else None)
-                if st != 'ok':
-                    ctx.fail(dict(case, frame=f + 1), f'refused: {tf}', site='for_image')
-                    continue
-                want = np.array(origin) + b * tc_ * pl['ps'][1] * row + a * tr_ * pl['ps'][0] * col + np.array([0.0, 0.0, plane * zsp])
-                if np.abs(tf.affine[:3, 3] - want).max() > 1e-9 * (1 + np.abs(want).max()):
-                    ctx.fail(dict(case, frame=f + 1, tile=[a, b], focal_plane=plane + 1),
-                             {'what': 'frame position of a TILED_FULL image with several optical paths / focal planes',
-                              'got': tf.affine[:3, 3].tolist(), 'want': want.tolist()}, site='frame_vs_total')
+            # TILED_FULL with ANY number of channels (optical paths / segments) and focal planes: see _tiled_multi_case
+            _tiled_multi_case(ctx, reqs, pend, r, pl, case, (trows, tcols, tr_, tc_))
             continue
         st, ttot = _call(sp.PixelToReferenceTransformer.for_image, ds, for_total_pixel_matrix=True)
         ctx.case(sample=case if i % 5 == 0 else None, fn='for_image', kind=kind, outcome=st if st == 'ok' else ttot,
@@ -1220,95 +1197,429 @@ def _dataset_cases(ctx, reqs, pend):
                     ctx.fail(dict(case, what='frame -> total pixel matrix', frame=f + 1), {'got': got.tolist(), 'want': want.tolist()}, site='frame_vs_total')
 
 
+# ------------------------------------------------------------------ 5a. TILED_FULL images in general form
+SEG_UID = '1.2.840.10008.5.1.4.1.1.66.4'
+LABELMAP_UID = '1.2.840.10008.5.1.4.1.1.66.7'
+WSI_UID = '1.2.840.10008.5.1.4.1.1.77.1.6'
+_MODEL_TILED = False
+TILED_FLAVOURS = ['wsi', 'wsi', 'wsi_nocount', 'seg_binary', 'seg_fractional', 'seg_labelmap']
+
+
+def _tcls():
+    from highdicom import spatial as sp
+    return [sp.PixelToReferenceTransformer, sp.ReferenceToPixelTransformer, sp.ImageToReferenceTransformer,
+            sp.ReferenceToImageTransformer]
+
+
+def _explicit(cls, pos, ori, ps, sbs):
+    """the transformer of that class from explicit attributes; the inverse ones take the declared slice spacing (1.0 if none)"""
+    from highdicom import spatial as sp
+    if cls in (sp.ReferenceToPixelTransformer, sp.ReferenceToImageTransformer):
+        return cls(pos, ori, ps, spacing_between_slices=1.0 if sbs is None else sbs)
+    return cls(pos, ori, ps)
+
+
+def _tiled_truth(r, pl, geo, flavour=None):
+    """geometry of a TILED_FULL image in general form: any number of channels (optical paths of a slide image - declared by
+    NumberOfOpticalPaths or only by the length of OpticalPathSequence -, segments of a BINARY / FRACTIONAL segmentation, the
+    single channel of a LABELMAP), any number of focal planes (attribute absent = 1), z origin and slice spacing present or not"""
+    trows, tcols, tr_, tc_ = geo
+    return {'x': pl['pos'][0], 'y': pl['pos'][1], 'z': r.choice([None, None, 0.0, _dy(r, -20, 20)]),
+            'ori': list(pl['ori']), 'ps': list(pl['ps']), 'cls': pl['cls'], 'zsp': r.choice([None, _spacing(r), _spacing(r)]),
+            'trows': trows, 'tcols': tcols, 'tr': tr_, 'tc': tc_, 'nch': r.choice([1, 2, 2, 3]), 'npl': r.choice([1, 1, 2, 3]),
+            'flavour': flavour or r.choice(TILED_FLAVOURS), 'planes_attr': r.random() < 0.7}
+
+
+def _tiled_counts(t):
+    nth, ntw = -(-t['trows'] // t['tr']), -(-t['tcols'] // t['tc'])
+    return nth, ntw, (1 if t['flavour'] == 'seg_labelmap' else t['nch']), t['npl']
+
+
+def _apply_tiled_truth(ds, t):
+    """write the geometry `t` into the TILED_FULL dataset IN PLACE: every attribute the implicit frame positions depend on"""
+    from pydicom import Dataset
+    from pydicom.sequence import Sequence as DSeq
+
+    def put(item, kw, val):
+        if val is None:
+            if kw in item:
+                delattr(item, kw)
+        else:
+            setattr(item, kw, val)
+    org = ds.TotalPixelMatrixOriginSequence[0]
+    org.XOffsetInSlideCoordinateSystem = t['x']
+    org.YOffsetInSlideCoordinateSystem = t['y']
+    put(org, 'ZOffsetInSlideCoordinateSystem', t['z'])
+    ds.ImageOrientationSlide = list(t['ori'])
+    pm = ds.SharedFunctionalGroupsSequence[0].PixelMeasuresSequence[0]
+    pm.PixelSpacing = list(t['ps'])
+    put(pm, 'SpacingBetweenSlices', t['zsp'])
+    ds.Rows, ds.Columns = t['tr'], t['tc']
+    ds.TotalPixelMatrixRows, ds.TotalPixelMatrixColumns = t['trows'], t['tcols']
+    nth, ntw, nch, npl = _tiled_counts(t)
+    put(ds, 'TotalPixelMatrixFocalPlanes', None if (npl == 1 and not t['planes_attr']) else npl)
+    fl = t['flavour']
+    if fl.startswith('seg'):
+        ds.SOPClassUID = LABELMAP_UID if fl == 'seg_labelmap' else SEG_UID
+        ds.SegmentationType = {'seg_binary': 'BINARY', 'seg_fractional': 'FRACTIONAL', 'seg_labelmap': 'LABELMAP'}[fl]
+        segs = []
+        for k in range(t['nch']):
+            it = Dataset()
+            it.SegmentNumber = k + 1
+            it.SegmentLabel = f's{k + 1}'
+            segs.append(it)
+        ds.SegmentSequence = DSeq(segs)
+    else:
+        ops = []
+        for k in range(t['nch']):
+            it = Dataset()
+            it.OpticalPathIdentifier = str(k + 1)
+            ops.append(it)
+        ds.OpticalPathSequence = DSeq(ops)
+        put(ds, 'NumberOfOpticalPaths', None if fl == 'wsi_nocount' else t['nch'])
+    ds.NumberOfFrames = nch * npl * nth * ntw
+
+
+def _tiled_frame(t, f):
+    """what frame f (0-based) of the TILED_FULL image is, from the construction: (channel, focal plane, tile row, tile column,
+    position): channels are the outer loop, then focal planes, then the tiles row by row; focal plane k lies (k - 1) x
+    SpacingBetweenSlices (1.0 if absent) above the z origin (0.0 if absent) ALONG z OF THE SLIDE"""
+    nth, ntw, nch, npl = _tiled_counts(t)
+    ch, rem = divmod(f, npl * nth * ntw)
+    plane, tl = divmod(rem, nth * ntw)
+    a, b = divmod(tl, ntw)
+    row, col = np.array(t['ori'][:3]), np.array(t['ori'][3:])
+    zsp = 1.0 if t['zsp'] is None else t['zsp']
+    z0 = 0.0 if t['z'] is None else t['z']
+    pos = np.array([t['x'], t['y'], z0 + plane * zsp]) + b * t['tc'] * t['ps'][1] * row + a * t['tr'] * t['ps'][0] * col
+    return ch, plane, a, b, pos
+
+
+def _pick_frames(r, t, k=10):
+    """frame numbers (0-based) to ask for: the first and last frame, the first and last frame of every channel and focal plane,
+    a few others; in shuffled order"""
+    nth, ntw, nch, npl = _tiled_counts(t)
+    ntile = nth * ntw
+    n = nch * npl * ntile
+    pick = {0, n - 1}
+    for c in range(nch):
+        for p in range(npl):
+            pick.add((c * npl + p) * ntile)
+            pick.add((c * npl + p) * ntile + ntile - 1)
+    pick = sorted(pick)
+    if len(pick) > k:
+        pick = [0, n - 1] + r.sample(pick[1:-1], k - 2)
+    pick = list(pick) + [r.randrange(n) for _ in range(3)]
+    pick = list(dict.fromkeys(pick))
+    r.shuffle(pick)
+    return pick
+
+
+def _check_tiled_frames(ctx, case, ds, t, r, frames, site, classes=None):
+    """TILED_FULL oracle for the given frames: every for_image transformer = explicit attributes at the frame's position from the
+    construction; frame (C, R) pixel (c, r) = total pixel matrix pixel (C-1+c, R-1+r) lifted by the focal plane; frame -> total
+    pixel matrix pixel-to-pixel / image-to-image is the shift by (C-1, R-1) when the frame lies in the plane of the total pixel
+    matrix and refused when it lies off it; the same tile in another channel is the same plane.  Returns False on the first failure."""
+    from highdicom import spatial as sp
+    tcls = classes or _tcls()
+    ori, ps = t['ori'], t['ps']
+    row, col = np.array(ori[:3]), np.array(ori[3:])
+    nrm = np.cross(row, col)
+    zsp = 1.0 if t['zsp'] is None else t['zsp']
+    z0 = 0.0 if t['z'] is None else t['z']
+    origin = [t['x'], t['y'], z0]
+    nth, ntw, nch, npl = _tiled_counts(t)
+    ntile = nth * ntw
+    lim = 1e-9 * (1 + max(abs(v) for v in origin) + (t['trows'] + t['tcols']) * max(ps) + npl * zsp)
+    st, ttot = _call(sp.PixelToReferenceTransformer.for_image, ds, for_total_pixel_matrix=True)
+    if st != 'ok' or not np.array_equal(ttot.affine, sp.PixelToReferenceTransformer(origin, ori, ps).affine):
+        ctx.fail(dict(case, what='total pixel matrix'), f'{st}: differs from the current attributes', site=site)
+        return False
+    for cls in tcls:
+        st, tt = _call(cls.for_image, ds, for_total_pixel_matrix=True)
+        if st != 'ok' or not np.array_equal(tt.affine, _explicit(cls, origin, ori, ps, t['zsp']).affine):
+            ctx.fail(dict(case, what='total pixel matrix', cls=cls.__name__), f'{st}: differs from the current attributes', site=site)
+            return False
+    for f in frames:
+        ch, plane, a, b, pos = _tiled_frame(t, f)
+        C, Rr = b * t['tc'] + 1, a * t['tr'] + 1
+        fcase = dict(case, frame=f + 1, channel=ch + 1, focal_plane=plane + 1, offset=[C, Rr])
+        for cls in tcls:
+            st, tfm = _call(cls.for_image, ds, frame_number=f + 1)
+            want = _explicit(cls, [float(x) for x in pos], ori, ps, t['zsp']).affine
+            ctx.case(fn='for_image', kind='tiled_full', outcome=st if st == 'ok' else tfm)
+            if st != 'ok' or np.abs(tfm.affine - want).max() > lim * 16:
+                ctx.fail(dict(fcase, cls=cls.__name__),
+                         {'what': 'frame transformer does not follow the current attributes of the dataset',
+                          'got': tfm.affine.tolist() if st == 'ok' else tfm, 'want': want.tolist()}, site=site)
+                return False
+        st, tf = _call(sp.PixelToReferenceTransformer.for_image, ds, frame_number=f + 1)
+        cr = np.array([[0, 0], [t['tc'] - 1, t['tr'] - 1], [r.randint(0, t['tc'] - 1), r.randint(0, t['tr'] - 1)]])
+        off = np.array([C - 1, Rr - 1])
+        want = ttot(cr + off) + np.array([0.0, 0.0, plane * zsp])
+        if st != 'ok' or np.abs(tf(cr) - want).max() > lim:
+            ctx.fail(fcase, {'what': 'pixel (c, r) of the frame is not pixel (C-1+c, R-1+r) of the total pixel matrix (lifted by the focal plane)',
+                             'got': tf(cr).tolist() if st == 'ok' else tf, 'want': want.tolist()}, site='frame_vs_total')
+            return False
+        dist = plane * zsp * float(nrm[2])      # signed distance of the frame's plane from the total pixel matrix
+        st2, t2 = _call(sp.PixelToPixelTransformer.for_images, ds, ds, frame_number_from=f + 1, for_total_pixel_matrix_to=True,
+                        round_output=False)
+        st3, t3 = _call(sp.ImageToImageTransformer.for_images, ds, ds, frame_number_from=f + 1, for_total_pixel_matrix_to=True)
+        if abs(dist) < 2.5e-6:
+            # in the plane of the total pixel matrix; displaced WITHIN it when the slide's z axis lies in the image plane
+            shift = np.linalg.solve(np.column_stack([row * ps[1], col * ps[0], nrm]), np.array([0.0, 0.0, plane * zsp]))[:2]
+            ok = st2 == 'ok' and st3 == 'ok' and np.abs(t2(cr) - (cr + off + shift)).max() < 1e-6 \
+                and np.abs(t3(cr + 0.25) - (cr + off + shift + 0.25)).max() < 1e-6
+            if not ok:
+                ctx.fail(fcase, {'what': 'frame -> total pixel matrix is not the shift by (C-1, R-1)', 'status': [st2, st3]}, site='frame_vs_total')
+                return False
+            if plane == 0:
+                st4, back = _call(lambda: sp.ReferenceToPixelTransformer.for_image(ds, frame_number=f + 1, drop_slice_index=True)(ttot(cr + off)))
+                if st4 != 'ok' or not np.array_equal(back, cr):
+                    ctx.fail(fcase, {'what': 'reference -> pixel of the frame does not return the frame indices',
+                                     'got': back.tolist() if st4 == 'ok' else back}, site='frame_vs_total')
+                    return False
+        elif abs(dist) > 4e-5 and (st2 == 'ok' or st3 == 'ok'):
+            ctx.fail(fcase, {'what': 'a focal plane off the total pixel matrix is accepted as coplanar with it', 'distance': dist}, site='coplanar')
+            return False
+        if nch > 1:
+            f2 = (f + npl * ntile) % (nch * npl * ntile)
+            st5, t5 = _call(sp.PixelToPixelTransformer.for_images, ds, ds, frame_number_from=f + 1, frame_number_to=f2 + 1, round_output=False)
+            if st5 != 'ok' or np.abs(t5(cr) - cr).max() > 1e-6:
+                ctx.fail(dict(fcase, other_frame=f2 + 1), {'what': 'the same tile in another channel is not the same pixels', 'status': st5}, site='frame_vs_total')
+                return False
+    return True
+
+
+def _tiled_desc(t):
+    """the TILED_FULL dataset as the model sees it"""
+    return {'x': R(t['x']), 'y': R(t['y']), 'z': None if t['z'] is None else R(t['z']), 'ori': RL(t['ori']), 'ps': RL(t['ps']),
+            'zsp': None if t['zsp'] is None else R(t['zsp']), 'rows': t['tr'], 'cols': t['tc'], 'trows': t['trows'], 'tcols': t['tcols'],
+            'channels': _tiled_counts(t)[2], 'planes': t['npl']}
+
+
+def _tiled_multi_case(ctx, reqs, pend, r, pl, case, geo):
+    import io
+    import pydicom
+    from highdicom import spatial as sp
+    from gen import sources
+    from gen.images import to_bytes
+    t = _tiled_truth(r, pl, geo)
+    ds, _ = sources.slide_image(t['trows'], t['tcols'], t['tr'], t['tc'], tiled_full=True, origin=(t['x'], t['y'], 0.0),
+                                pixel_spacing=t['ps'], orientation=t['ori'])
+    _apply_tiled_truth(ds, t)
+    variant = 'memory'
+    if r.random() < 0.3:
+        # after a bytes round trip: the file holds the numbers rounded to DS strings, the truth is what the file holds
+        st_b, back = _call(lambda d: pydicom.dcmread(io.BytesIO(to_bytes(d))), ds)
+        if st_b == 'ok':
+            ds, variant = back, 'bytes'
+            org = ds.TotalPixelMatrixOriginSequence[0]
+            pm = ds.SharedFunctionalGroupsSequence[0].PixelMeasuresSequence[0]
+            t = dict(t, x=float(org.XOffsetInSlideCoordinateSystem), y=float(org.YOffsetInSlideCoordinateSystem),
+                     z=None if t['z'] is None else float(org.ZOffsetInSlideCoordinateSystem),
+                     ori=[float(v) for v in ds.ImageOrientationSlide], ps=[float(v) for v in pm.PixelSpacing],
+                     zsp=None if t['zsp'] is None else float(pm.SpacingBetweenSlices))
+    nth, ntw, nch, npl = _tiled_counts(t)
+    n = nch * npl * nth * ntw
+    frames = _pick_frames(r, t)
+    case = dict(case, tiled=dict(t), variant=variant)
+    ok = _check_tiled_frames(ctx, case, ds, t, r, frames, 'for_image')
+    ctx.case(sample=case if r.random() < 0.1 else None, fn='for_image', kind='full_multi', flavour=t['flavour'], channels=nch, planes=npl,
+             z_origin='absent' if t['z'] is None else 'given', slice_spacing='absent' if t['zsp'] is None else 'given', variant=variant,
+             nontrivial_key=('ds', 'full_multi', t['flavour'], min(nch, 2), min(npl, 2), t['cls']) if ok else None)
+    # frame numbers outside the image are refused
+    for bad_f in (0, n + 1, n + 1 + r.randint(1, 50)):
+        st, tf = _call(sp.PixelToReferenceTransformer.for_image, ds, frame_number=bad_f)
+        if st == 'ok':
+            ctx.fail(dict(case, frame=bad_f, frames=n), 'a frame number outside the image is accepted', site='for_image')
+    # the model of _get_spatial_information / iter_tiled_full_frame_data on the same frames (and one outside)
+    exact = t['cls'] == 'axis' and variant == 'memory' and all(Fr(s).denominator <= 1024 for s in t['ps'])
+    tol = 0 if exact else TOL * 64 * (1 + Fr(max(abs(t['x']), abs(t['y']), abs(t['z'] or 0.0))) + (t['trows'] + t['tcols']) * 4)
+    for f in (frames[:6] + [n]) if _MODEL_TILED else []:
+        st, tf = _call(sp.PixelToReferenceTransformer.for_image, ds, frame_number=f + 1)
+        st2, t2 = _call(sp.ReferenceToPixelTransformer.for_image, ds, frame_number=f + 1, round_output=False)
+        reqs.append(('tiledFrame', dict(_tiled_desc(t), frame=f + 1)))
+        impl = (st, {'position': tf.affine[:3, 3], 'inverse': {'m': t2.affine[:3, :3], 't': t2.affine[:3, 3]}} if st == 'ok' and st2 == 'ok' else tf)
+        pend.append((dict(case, fn='for_image(TILED_FULL frame)', frame=f + 1), impl, tol if f < n else 0))
+
+
 # ------------------------------------------------------------------ 5b. histories: transformers depend only on the CURRENT attributes
-def _history_cases(ctx):
-    """No hidden state: build the transformers of an image, change its geometry (in place, on a deepcopy keeping the SOP
-    Instance UID, or in a second synthetic dataset reusing the UID), build them again in the same process - after every
-    step every for_image-style constructor must agree with the explicit attributes of the dataset AS IT IS NOW, and frame
-    (C, R) pixel (c, r) must be pixel (C-1+c, R-1+r) of the total pixel matrix."""
+def _history_cases(ctx, reqs=None, pend=None):
+    """No hidden state, in general form.  An image (TILED_FULL with any channels / focal planes, TILED_SPARSE, enhanced multi-frame,
+    a series of single frames) goes through a HISTORY of steps; before the first and after every step some or all of its
+    for_image / for_images transformers are requested (frames in shuffled order, sometimes only a few, sometimes after a request
+    that is refused), and every answer must follow the attributes of the dataset AS IT IS NOW.  Steps: edit the geometry IN
+    PLACE (origin incl. z, orientation, pixel spacing, slice spacing, tile size, number of channels / focal planes), edit a
+    deepcopy that keeps the SOP Instance UID (a corrected copy), build a new synthetic dataset reusing the UID, or go BACK to
+    an earlier version that is still in memory."""
     import copy
     from highdicom import spatial as sp
     from gen import sources
-    n = ctx.n(120, 300)
-    tcls = [sp.PixelToReferenceTransformer, sp.ReferenceToPixelTransformer, sp.ImageToReferenceTransformer,
-            sp.ReferenceToImageTransformer]
+    n = ctx.n(140, 340)
+    tcls = _tcls()
 
-    def explicit(cls, pos, ori, ps, sbs):
-        if cls in (sp.ReferenceToPixelTransformer, sp.ReferenceToImageTransformer):
-            return cls(pos, ori, ps, spacing_between_slices=1.0 if sbs is None else sbs)
-        return cls(pos, ori, ps)
+    def plain_truth(r, pl, kind):
+        return {'pos': list(pl['pos']), 'ori': list(pl['ori']), 'ps': list(pl['ps']), 'cls': pl['cls'], 'sl': _spacing(r),
+                'nfr': r.randint(1, 3)}
 
-    def verify(case, kind, ds, pl, geo):
-        row, col = np.array(pl['ori'][:3]), np.array(pl['ori'][3:])
-        lim = 1e-9 * (1 + max(abs(x) for x in pl['pos']))
-        if kind in ('full', 'sparse'):
-            trows, tcols, tr_, tc_ = geo
-            origin = [pl['pos'][0], pl['pos'][1], 0.0]
-            st, ttot = _call(sp.PixelToReferenceTransformer.for_image, ds, for_total_pixel_matrix=True)
-            if st != 'ok' or not np.array_equal(ttot.affine, sp.PixelToReferenceTransformer(origin, pl['ori'], pl['ps']).affine):
-                ctx.fail(dict(case, what='total pixel matrix'), f'{st}: differs from the current attributes', site='history')
-                return
-            ntw = -(-tcols // tc_)
-            nfr = int(ds.NumberOfFrames)
-            for f in range(nfr):
-                a, b = divmod(f, ntw)
-                C, Rr = b * tc_ + 1, a * tr_ + 1
-                fpos = np.array(origin) + (C - 1) * pl['ps'][1] * row + (Rr - 1) * pl['ps'][0] * col
-                for cls in tcls:
-                    st, t = _call(cls.for_image, ds, frame_number=f + 1)
-                    ctx.case(fn='history', kind=kind, outcome=st if st == 'ok' else t)
-                    want = explicit(cls, [float(x) for x in fpos], pl['ori'], pl['ps'], None).affine
-                    if st != 'ok' or np.abs(t.affine - want).max() > lim * 16:
-                        ctx.fail(dict(case, cls=cls.__name__, frame=f + 1, offset=[C, Rr]),
-                                 {'what': 'frame transformer does not follow the current attributes of the dataset',
-                                  'got': t.affine.tolist() if st == 'ok' else t, 'want': want.tolist()}, site='history')
-                        return
-                st, tf = _call(sp.PixelToReferenceTransformer.for_image, ds, frame_number=f + 1)
-                cr = np.array([[0, 0], [tc_ - 1, tr_ - 1]])
-                if st != 'ok' or np.abs(tf(cr) - ttot(cr + np.array([C - 1, Rr - 1]))).max() > lim:
-                    ctx.fail(dict(case, frame=f + 1, offset=[C, Rr]),
-                             {'what': 'pixel (c, r) of the frame is not pixel (C-1+c, R-1+r) of the total pixel matrix'}, site='frame_vs_total')
-                    return
-                st, t2 = _call(sp.PixelToPixelTransformer.for_images, ds, ds, frame_number_from=f + 1, for_total_pixel_matrix_to=True,
-                               round_output=False)
-                if st != 'ok' or np.abs(t2(np.array([[0, 0]])) - np.array([[C - 1, Rr - 1]], dtype=float)).max() > 1e-6:
-                    ctx.fail(dict(case, frame=f + 1, offset=[C, Rr]), {'what': 'frame -> total pixel matrix mapping', 'status': st}, site='frame_vs_total')
-                    return
+    def frame_pos(t, f):
+        nrm = np.cross(np.array(t['ori'][:3]), np.array(t['ori'][3:]))
+        return [float(x) for x in np.array(t['pos']) + f * t['sl'] * nrm]
+
+    def sparse_tiles(t):
+        nth, ntw = -(-t['trows'] // t['tr']), -(-t['tcols'] // t['tc'])
+        return [(a, b) for a in range(nth) for b in range(ntw)]
+
+    def apply_plain(kind, obj, t):
+        """IN PLACE edit of a series of single frames / an enhanced multi-frame image / a TILED_SPARSE image"""
+        if kind == 'single':
+            for f, d in enumerate(obj):
+                d.ImagePositionPatient = frame_pos(t, f)
+                d.ImageOrientationPatient = list(t['ori'])
+                d.PixelSpacing = list(t['ps'])
+        elif kind == 'perframe':
+            sh = obj.SharedFunctionalGroupsSequence[0]
+            sh.PlaneOrientationSequence[0].ImageOrientationPatient = list(t['ori'])
+            sh.PixelMeasuresSequence[0].PixelSpacing = list(t['ps'])
+            sh.PixelMeasuresSequence[0].SpacingBetweenSlices = abs(t['sl'])
+            for f, it in enumerate(obj.PerFrameFunctionalGroupsSequence):
+                it.PlanePositionSequence[0].ImagePositionPatient = frame_pos(t, f)
         else:
-            nfr, sl = geo
-            nrm = np.cross(row, col)
-            for f in range(nfr):
-                pos = [float(x) for x in np.array(pl['pos']) + f * sl * nrm]
-                d, fn = (ds[f], None) if kind == 'single' else (ds, f + 1)
-                for cls in tcls:
-                    st, t = _call(cls.for_image, d, frame_number=fn)
-                    ctx.case(fn='history', kind=kind, outcome=st if st == 'ok' else t)
-                    want = explicit(cls, pos, pl['ori'], pl['ps'], None if kind == 'single' else abs(sl)).affine
-                    if st != 'ok' or np.abs(t.affine - want).max() > lim * 16:
-                        ctx.fail(dict(case, cls=cls.__name__, frame=f + 1),
-                                 {'what': 'transformer does not follow the current attributes of the dataset',
-                                  'got': t.affine.tolist() if st == 'ok' else t, 'want': want.tolist()}, site='history')
-                        return
+            org = obj.TotalPixelMatrixOriginSequence[0]
+            org.XOffsetInSlideCoordinateSystem, org.YOffsetInSlideCoordinateSystem = t['x'], t['y']
+            obj.ImageOrientationSlide = list(t['ori'])
+            obj.SharedFunctionalGroupsSequence[0].PixelMeasuresSequence[0].PixelSpacing = list(t['ps'])
+            row, col = np.array(t['ori'][:3]), np.array(t['ori'][3:])
+            for (a, b), it in zip(sparse_tiles(t), obj.PerFrameFunctionalGroupsSequence):
+                p = np.array([t['x'], t['y'], 0.0]) + b * t['tc'] * t['ps'][1] * row + a * t['tr'] * t['ps'][0] * col
+                pp = it.PlanePositionSlideSequence[0]
+                pp.XOffsetInSlideCoordinateSystem, pp.YOffsetInSlideCoordinateSystem, pp.ZOffsetInSlideCoordinateSystem = (float(v) for v in p)
 
-    def build(kind, pl, geo, uids):
+    def build(kind, t, uids):
         if kind in ('full', 'sparse'):
-            trows, tcols, tr_, tc_ = geo
-            ds, _ = sources.slide_image(trows, tcols, tr_, tc_, tiled_full=(kind == 'full'), origin=(pl['pos'][0], pl['pos'][1], 0.0),
-                                        pixel_spacing=pl['ps'], orientation=pl['ori'])
+            ds, _ = sources.slide_image(t['trows'], t['tcols'], t['tr'], t['tc'], tiled_full=(kind == 'full'), origin=(t['x'], t['y'], 0.0),
+                                        pixel_spacing=t['ps'], orientation=t['ori'])
+            if kind == 'full':
+                _apply_tiled_truth(ds, t)
             if uids:
                 ds.SOPInstanceUID = uids[0]
                 ds.file_meta.MediaStorageSOPInstanceUID = uids[0]
             return ds, [str(ds.SOPInstanceUID)]
-        nfr, sl = geo
         if kind == 'single':
-            dss = sources.ct_series(nfr, 2, 3, orientation=pl['ori'], origin=pl['pos'], pixel_spacing=pl['ps'], slice_spacing=sl)
-            for d, u in zip(dss, uids):
+            dss = sources.ct_series(t['nfr'], 2, 3, orientation=t['ori'], origin=t['pos'], pixel_spacing=t['ps'], slice_spacing=t['sl'])
+            for d, u in zip(dss, uids or []):
                 d.SOPInstanceUID = u
             return dss, [str(d.SOPInstanceUID) for d in dss]
-        ds = sources.enhanced_multiframe(nfr, 2, 3, orientation=pl['ori'], origin=pl['pos'], pixel_spacing=pl['ps'], slice_spacing=sl)
+        ds = sources.enhanced_multiframe(t['nfr'], 2, 3, orientation=t['ori'], origin=t['pos'], pixel_spacing=t['ps'], slice_spacing=t['sl'])
         if uids:
             ds.SOPInstanceUID = uids[0]
         return ds, [str(ds.SOPInstanceUID)]
+
+    def verify(case, kind, obj, t, r, plan):
+        if plan == 'refused_first':
+            # a request that is refused must leave nothing behind
+            if kind == 'full':
+                bad = _call(sp.PixelToReferenceTransformer.for_image, obj, frame_number=int(obj.NumberOfFrames) + 1)
+            elif kind == 'sparse':
+                bad = _call(sp.PixelToReferenceTransformer.for_image, obj, frame_number=None)
+            elif kind == 'perframe':
+                bad = _call(sp.PixelToReferenceTransformer.for_image, obj, for_total_pixel_matrix=True)
+            else:
+                bad = _call(sp.PixelToReferenceTransformer.for_image, obj[0], frame_number=2)
+            if bad[0] == 'ok':
+                ctx.fail(dict(case, what='invalid request'), 'accepted', site='history')
+        some = plan in ('some', 'refused_first')
+        classes = tcls if not some else r.sample(tcls, r.randint(1, 4))
+        if kind == 'full':
+            frames = _pick_frames(r, t, k=8)
+            if some:
+                frames = frames[:r.randint(1, 3)]
+            return _check_tiled_frames(ctx, case, obj, t, r, frames, 'history', classes=classes)
+        if kind == 'sparse':
+            row, col = np.array(t['ori'][:3]), np.array(t['ori'][3:])
+            origin = [t['x'], t['y'], 0.0]
+            lim = 1e-9 * (1 + max(abs(t['x']), abs(t['y'])) + (t['trows'] + t['tcols']) * max(t['ps']))
+            st, ttot = _call(sp.PixelToReferenceTransformer.for_image, obj, for_total_pixel_matrix=True)
+            if st != 'ok' or not np.array_equal(ttot.affine, sp.PixelToReferenceTransformer(origin, t['ori'], t['ps']).affine):
+                ctx.fail(dict(case, what='total pixel matrix'), f'{st}: differs from the current attributes', site='history')
+                return False
+            tiles = list(enumerate(sparse_tiles(t)))
+            r.shuffle(tiles)
+            for f, (a, b) in (tiles[:r.randint(1, 3)] if some else tiles[:12]):
+                C, Rr = b * t['tc'] + 1, a * t['tr'] + 1
+                fpos = np.array(origin) + (C - 1) * t['ps'][1] * row + (Rr - 1) * t['ps'][0] * col
+                for cls in classes:
+                    st, tf = _call(cls.for_image, obj, frame_number=f + 1)
+                    ctx.case(fn='history', kind=kind, outcome=st if st == 'ok' else tf)
+                    want = _explicit(cls, [float(x) for x in fpos], t['ori'], t['ps'], None).affine
+                    if st != 'ok' or np.abs(tf.affine - want).max() > lim * 16:
+                        ctx.fail(dict(case, cls=cls.__name__, frame=f + 1, offset=[C, Rr]),
+                                 {'what': 'frame transformer does not follow the current attributes of the dataset',
+                                  'got': tf.affine.tolist() if st == 'ok' else tf, 'want': want.tolist()}, site='history')
+                        return False
+                st, tf = _call(sp.PixelToReferenceTransformer.for_image, obj, frame_number=f + 1)
+                cr = np.array([[0, 0], [t['tc'] - 1, t['tr'] - 1]])
+                if st != 'ok' or np.abs(tf(cr) - ttot(cr + np.array([C - 1, Rr - 1]))).max() > lim:
+                    ctx.fail(dict(case, frame=f + 1, offset=[C, Rr]),
+                             {'what': 'pixel (c, r) of the frame is not pixel (C-1+c, R-1+r) of the total pixel matrix'}, site='frame_vs_total')
+                    return False
+                st, t2 = _call(sp.PixelToPixelTransformer.for_images, obj, obj, frame_number_from=f + 1, for_total_pixel_matrix_to=True,
+                               round_output=False)
+                if st != 'ok' or np.abs(t2(np.array([[0, 0]])) - np.array([[C - 1, Rr - 1]], dtype=float)).max() > 1e-6:
+                    ctx.fail(dict(case, frame=f + 1, offset=[C, Rr]), {'what': 'frame -> total pixel matrix mapping', 'status': st}, site='frame_vs_total')
+                    return False
+            return True
+        lim = 1e-9 * (1 + max(abs(x) for x in t['pos']) + 4 * abs(t['sl']))
+        order = list(range(t['nfr']))
+        r.shuffle(order)
+        for f in (order[:1] if some else order):
+            d, fn = (obj[f], None) if kind == 'single' else (obj, f + 1)
+            for cls in classes:
+                st, tf = _call(cls.for_image, d, frame_number=fn)
+                ctx.case(fn='history', kind=kind, outcome=st if st == 'ok' else tf)
+                want = _explicit(cls, frame_pos(t, f), t['ori'], t['ps'], None if kind == 'single' else abs(t['sl'])).affine
+                if st != 'ok' or np.abs(tf.affine - want).max() > lim * 16:
+                    ctx.fail(dict(case, cls=cls.__name__, frame=f + 1),
+                             {'what': 'transformer does not follow the current attributes of the dataset',
+                              'got': tf.affine.tolist() if st == 'ok' else tf, 'want': want.tolist()}, site='history')
+                    return False
+        if t['nfr'] > 1:
+            # two frames of a stack: parallel planes one slice apart are not coplanar, a frame with itself is the identity
+            d0, f0 = (obj[0], None) if kind == 'single' else (obj, 1)
+            d1, f1 = (obj[1], None) if kind == 'single' else (obj, 2)
+            st, t2 = _call(sp.PixelToPixelTransformer.for_images, d0, d1, frame_number_from=f0, frame_number_to=f1)
+            if st == 'ok':
+                ctx.fail(dict(case, what='two slices of a stack'), 'accepted as coplanar', site='coplanar')
+                return False
+        return True
+
+    def edit(kind, t, what, r, mode):
+        """the new geometry after changing `what`"""
+        pl2 = _plane(r)
+        t2 = dict(t)
+        tiled = kind in ('full', 'sparse')
+        if what in ('origin', 'all'):
+            if tiled:
+                t2.update(x=pl2['pos'][0], y=pl2['pos'][1])
+                if kind == 'full':
+                    t2['z'] = r.choice([None, 0.0, _dy(r, -20, 20), _dy(r, -20, 20)])
+            else:
+                t2['pos'] = list(pl2['pos'])
+        if what in ('orientation', 'all'):
+            t2.update(ori=list(pl2['ori']), cls=pl2['cls'])
+        if what in ('spacing', 'all'):
+            t2['ps'] = list(pl2['ps'])
+        if what in ('zstack', 'all'):
+            if kind == 'full':
+                t2.update(zsp=r.choice([None, _spacing(r), _spacing(r)]), npl=r.choice([1, 2, 3]))
+            elif not tiled:
+                t2['sl'] = _spacing(r)
+        if what in ('tiles', 'all') and (kind == 'full' or (kind == 'sparse' and mode == 'regenerate')):
+            t2.update(tr=r.randint(1, 3), tc=r.randint(1, 3))
+        if what in ('channels', 'all') and kind == 'full':
+            t2['nch'] = r.choice([1, 2, 3])
+        return t2
 
     for i in range(n):
         r = ctx.rng('hist', i)
@@ -1316,47 +1627,47 @@ def _history_cases(ctx):
         pl = _plane(r)
         if kind in ('full', 'sparse'):
             geo = (r.randint(2, 7), r.randint(2, 7), r.randint(1, 3), r.randint(1, 3))
+            t = _tiled_truth(r, pl, geo)
+            if kind == 'sparse':
+                t.update(z=None, zsp=None, nch=1, npl=1, flavour='wsi')
         else:
-            geo = (r.randint(1, 3), _spacing(r))
-        ds, uids = build(kind, pl, geo, [])
+            t = plain_truth(r, pl, kind)
+        obj, uids = build(kind, t, [])
+        versions = [[obj, t]]
+        cur = 0
         case = {'fn': 'history', 'kind': kind, 'i': i, 'steps': []}
-        verify(dict(case, step=0), kind, ds, pl, geo)
-        for step in range(1, 3):
-            pl2 = _plane(r)
-            mode = r.choice(['inplace', 'deepcopy', 'regenerate']) if kind == 'full' else 'regenerate'
-            what = r.choice(['origin', 'orientation', 'spacing', 'tiles', 'all'])
-            if mode == 'regenerate':
-                if what == 'origin':
-                    pl2 = dict(pl, pos=pl2['pos'])
-                elif what == 'orientation':
-                    pl2 = dict(pl, ori=pl2['ori'], cls=pl2['cls'])
-                elif what == 'spacing':
-                    pl2 = dict(pl, ps=pl2['ps'])
-                geo2 = geo
-                if kind in ('full', 'sparse') and what in ('tiles', 'all'):
-                    geo2 = (geo[0], geo[1], r.randint(1, 3), r.randint(1, 3))
-                    if what == 'tiles':
-                        pl2 = pl
-                ds, _ = build(kind, pl2, geo2, uids)
-                pl, geo = pl2, geo2
+        verify(dict(case, step=0), kind, obj, t, r, r.choice(['all', 'some']))
+        for step in range(1, 4):
+            mode = r.choice(['inplace', 'inplace', 'deepcopy', 'regenerate', 'revisit'])
+            what = r.choice(['origin', 'origin', 'orientation', 'spacing', 'zstack', 'tiles', 'channels', 'all'])
+            obj, t = versions[cur]
+            if mode == 'revisit':
+                cur = r.randrange(len(versions))
+                obj, t = versions[cur]
+                what = 'nothing'
             else:
-                # TILED_FULL: the frame positions are implied by the attributes that are edited here
-                tgt = ds if mode == 'inplace' else copy.deepcopy(ds)
-                if what in ('origin', 'all', 'tiles'):
-                    tgt.TotalPixelMatrixOriginSequence[0].XOffsetInSlideCoordinateSystem = pl2['pos'][0]
-                    tgt.TotalPixelMatrixOriginSequence[0].YOffsetInSlideCoordinateSystem = pl2['pos'][1]
-                    pl = dict(pl, pos=pl2['pos'])
-                if what in ('orientation', 'all'):
-                    tgt.ImageOrientationSlide = pl2['ori']
-                    pl = dict(pl, ori=pl2['ori'], cls=pl2['cls'])
-                if what in ('spacing', 'all'):
-                    tgt.SharedFunctionalGroupsSequence[0].PixelMeasuresSequence[0].PixelSpacing = pl2['ps']
-                    pl = dict(pl, ps=pl2['ps'])
-                ds = tgt
-            case['steps'].append([mode, what])
-            ctx.case(fn='history', kind=kind, edit=what, mode=mode, nontrivial_key=('hist', kind, mode, what, step))
-            verify(dict(case, step=step), kind, ds, pl, geo)
-
+                t2 = edit(kind, t, what, r, mode)
+                if mode == 'regenerate':
+                    obj, _ = build(kind, t2, uids)
+                    versions.append([obj, t2])
+                    cur = len(versions) - 1
+                else:
+                    if mode == 'deepcopy':
+                        obj = copy.deepcopy(obj)
+                        versions.append([obj, t2])
+                        cur = len(versions) - 1
+                    else:
+                        versions[cur][1] = t2
+                    if kind == 'full':
+                        _apply_tiled_truth(obj, t2)
+                    else:
+                        apply_plain(kind, obj, t2)
+                t = t2
+            plan = r.choice(['all', 'some', 'some', 'refused_first'])
+            case['steps'].append([mode, what, plan])
+            ctx.case(fn='history', kind=kind, edit=what, mode=mode, plan=plan, nontrivial_key=('hist', kind, mode, what))
+            if not verify(dict(case, step=step, geometry={k: v for k, v in t.items()}), kind, obj, t, r, plan):
+                break
 
 # ------------------------------------------------------------------ run
 def _compare(ctx, reqs, pend):
